@@ -286,6 +286,50 @@ Theorem C03_parse2_written : forall d ind b, indent_ok ind = true -> write_ttml_
 Proof. exact parse2_written. Qed.
 Print Assumptions C03_parse2_written.
 
+(* Second audit, N2.  [C03_read_rendered_bytes] lets the printing choice put a line break before an attribute inside a
+   tag ([pc_gap]).  The library used to strip the indentation of a paragraph's inner XML line-wise regardless of context,
+   gluing "<span\n tts:color" into "<spantts:color" (XML syntax error): a defect, repaired in the repository ("fix: TTML
+   reader keeps attributes apart when a line break inside a tag is removed with the indentation"; seed
+   seeded/C03-line-break-inside-a-tag-glues-attributes).  The tree-level model never saw the difference (white space inside
+   a tag is not part of the token tree); the harness now generates line breaks inside span and br tags and counts them
+   (ttml.freedom.linebreak_in_tag.*, ttml.read.start_tags_with_a_line_break_inside) instead of skipping them.  What remains
+   outside: a line break inside a quoted attribute VALUE of an element inside a paragraph is replaced by a blank by the
+   stripping (the value changes); [bytes_ok_go] excludes it, and this is the byte-level statement that is true of the library: *)
+Theorem C03_read_rendered_bytes_go : forall r m pc prolog,
+  render_ok r m = true -> bytes_ok_go r m = true -> pchoice_ok pc (render_std r m) = true -> prolog_ok prolog = true ->
+  exists t, xml_parse2 (prolog ++ print2 print_name pc (render_std r m)) = Some t /\ read_ttml t = Ok (denote_ttml r m).
+Proof. exact read_rendered_bytes_go. Qed.
+Print Assumptions C03_read_rendered_bytes_go.
+
+(* Second audit (i)4.  [C03_time_clock_frames] is stated over unbounded Z; Go adds the clock part and the frames term with
+   wrap-around.  Under the theorem's hypotheses the frames term lies in [0, 2^49], so a clock part of at most
+   max_int64 - 2^49 keeps the result inside int64: the domain on which Go computes the model's value.  ([texpr_okb], hence
+   [C03_read_rendered], already bounds the result by max_int64.)  Boundary: "2562047:47:16:24" at 25 fps means
+   9223372036960000000 ns - the model says so, Go wraps to -9223372036749551616 (observed; compared through the
+   model's out-of-range flag in group ttml.time.malformed). *)
+Theorem C03_time_clock_frames_int64 : forall hs ms ss fds fr tr, digits hs -> digits ms -> digits ss -> digits fds ->
+  hs <> [] -> ms <> [] -> ss <> [] -> fds <> [] ->
+  dval hs <= max_int64 -> dval ms <= max_int64 -> dval ss <= max_int64 ->
+  0 <= dval fds < 2 ^ 53 -> 0 < fr < 2 ^ 53 -> dval fds * second_ns < 2 ^ 49 * fr ->
+  hms_ns hs ms ss <= max_int64 - 2 ^ 49 ->
+  exists r, ttml_time (clock_frames_expr hs ms ss fds) fr tr = Some (hms_ns hs ms ss + r) /\
+            denotes_instant r (dval fds * second_ns) fr /\ 0 <= hms_ns hs ms ss + r <= max_int64.
+Proof. exact clock_frames_int64. Qed.
+Print Assumptions C03_time_clock_frames_int64.
+Example C03_clock_frames_int64_boundary :
+  ttml_time (clock_frames_expr s_2562047 [52;55]%N [49;54]%N [50;52]%N) 25 0 = Some 9223372036960000000 /\
+  max_int64 < 9223372036960000000 /\ max_int64 - 2 ^ 49 < hms_ns s_2562047 [52;55]%N [49;54]%N.
+Proof. exact clock_frames_int64_boundary. Qed.
+
+(* Second audit (i)8: why there is no [C03_write_is_rendering].  The writer's tree is NOT an instance of [render_ttml]: the
+   rendering skeleton always has the three head sections (metadata, styling, layout, in any order) with a title and a
+   copyright element, whereas WriteToTTML omits the metadata element when title and copyright are empty and each of the two
+   elements when its text is empty (and writes copyright before title).  Generalising the skeleton to optional elements
+   would make the writer an instance; it has not been done.  The writer's own output is covered directly, and more
+   strongly, by [C03_write_read] (trees, every representable value, every white-space indent option),
+   [C03_write_read_bytes_go] (Go's bytes, legal text) and [C03_parse2_written]; its paragraphs ARE renderings in the sense of
+   [C03_lines]/[C03_paragraph] (Proofs/TtmlDocB.v: [out_lines] is [render_content] of canonical groups). *)
+
 (* ---------------- totality ---------------- *)
 Theorem C03_read_total : forall root s, read_ttml root <> Panic s.
 Proof. exact read_ttml_total. Qed.
@@ -296,3 +340,12 @@ Print Assumptions C03_write_total.
 Theorem C03_write_empty : forall d, td_items d = [] <-> write_ttml d = Err ENothingToWrite.
 Proof. exact write_ttml_empty. Qed.
 Print Assumptions C03_write_empty.
+
+(* ---- the model's literals are the constants of the Go source (Proofs/ConstTie.v, Gen/Consts.v regenerated from the
+   repository on every run by tools/genconsts): every TTML keyword, separator, tag and name the model spells out equals the
+   package-level constant, struct tag or bidirectional-map entry of the source, or occurs among the string literals of
+   the function the model transcribes.  A closed boolean computed by the kernel. ---- *)
+From Astisub Require Proofs.ConstTie.
+Theorem C03_constants_from_source : ConstTie.all ConstTie.TtmlTie.ties = true.
+Proof. exact ConstTie.TtmlTie.consts_from_source. Qed.
+Print Assumptions C03_constants_from_source.
